@@ -972,6 +972,13 @@ func (x *Exec) specLocs(src string, sc *SpecScope, st *State, c *Contract) []*sp
 				return []*specLoc{{key: "G!" + id.Name, ref: ref, ghost: gs}}
 			}
 			switch id.Name {
+			case "allof":
+				// allof(ghost): the whole ghost map
+				g := ce.Args[0].(*ast.Ident).Name
+				if gs, ok := x.eng.pre.Ghost[g]; ok {
+					return []*specLoc{{key: "G!" + g, ghost: gs, whole: true}}
+				}
+				panic(engErr("allof: unknown ghost %s", g))
 			case "elems":
 				v := x.evalSpec(ce.Args[0], sc, st)
 				if v.P != nil {
